@@ -70,6 +70,8 @@ var Tokens = []TokSpec{
 var Literals = []string{
 	"/", "/a", "/ab", "/abc", "a", "aa", "b", "//", ".", ".html", "-", "/x/", "/a/", "1", "12", "+", "(", "[", "é", "世/",
 	"/users/", "/log", "/author", "/abd", "x", "_",
+	"%2B", "%23", "%", // text that looks like a percent-escape is text: patterns are compared with the decoded path, and siblings may part company inside it
+	"|", "|a", "^", "$", // bytes that mean something inside a regexp: literal text after a regexp parameter is compiled into the expression
 }
 
 // FanBytes are first bytes for literal sibling fans (>=5 literal children
@@ -94,7 +96,7 @@ var Hostile = &Pool{Tokens: Tokens, Literals: Literals, FanBytes: FanBytes}
 // built with digit values decompose uniquely (DESIGN C03).
 var Simple = &Pool{
 	Tokens: []TokSpec{Tokens[0], Tokens[1], Tokens[2], Tokens[3], Tokens[4], Tokens[5], Tokens[6], Tokens[7], Tokens[8], Tokens[9], Tokens[10], Tokens[13]},
-	Literals: []string{"/", "/a", "/ab", "/abc", "a", "aa", "b", "//", ".", ".html", "-", "/x/", "/a/", "+", "(", "é", "/users/", "/log", "/author", "/abd", "x"},
+	Literals: []string{"/", "/a", "/ab", "/abc", "a", "aa", "b", "//", ".", ".html", "-", "/x/", "/a/", "+", "(", "é", "/users/", "/log", "/author", "/abd", "x", "|", "^", "%+B", "%+("},
 	FanBytes: []string{"a", "b", "c", "d", "e", "f", "g", "h", "-", ".", "é", "z", "/"},
 }
 
